@@ -227,7 +227,8 @@ def gen_grid_case(rnd, ns=None):
         north = round(rnd.uniform(0.0, 10000000.0), rnd.choice([0, 3, 4]))
     else:
         kind = 'axis'
-        east = rnd.choice([fe, fe, round(rnd.uniform(max(-2.83e6, fe - 3e6), min(3.83e6, fe + 3e6)), 3)])
+        east = rnd.choice([fe, fe, round(rnd.uniform(max(-2.83e6, fe - 3e6), min(3.83e6, fe + 3e6)), 3),
+                           -2830000.0, 3830000.0, 100000.0, 900000.0])
         north = rnd.choice([0.0, 10000000.0, fn, round(rnd.uniform(0, 1e7), 3)])
         if hemi.lower() == 'south' and rnd.random() < 0.5:
             north = min(max(fn - rnd.choice([0.0, 0.0001, 1.0, 100.0]), 0.0), 1e7)
